@@ -15,7 +15,7 @@ Record wpool := mkWPool {
   pw_now : Z
 }.
 
-Record wcfg := mkWpCfg { wc_max_idle : Z; wc_timeout : Z }.
+Record wpcfg := mkWpCfg { wc_max_idle : Z; wc_timeout : Z }.
 
 Definition wp_init : wpool := {| pw_idle := []; pw_active := []; pw_pools := []; pw_closed := []; pw_now := 0 |}.
 
@@ -30,7 +30,7 @@ Inductive wop :=
 
 Inductive wout := ONone | OBool (r : bool) | OConn (c : option Z) | OStats (idle active : Z).
 
-Definition stale (cfg : wcfg) (now : Z) (e : entry) : bool := wc_timeout cfg <? now - e_last e.
+Definition stale (cfg : wpcfg) (now : Z) (e : entry) : bool := wc_timeout cfg <? now - e_last e.
 
 Definition count_backend (b : Z) (l : list entry) : Z := zlen (filter (fun e => Z.eqb (e_backend e) b) l).
 
@@ -40,7 +40,7 @@ Definition dec_active (b : Z) (s : wpool) : list (Z * Z) :=
 
 (* scan a backend's entries from the most recent one: stale ones are closed and dropped, the first fresh one is handed out.
    [l] is the idle list reversed (most recent first); the result keeps that order. *)
-Fixpoint get_scan (cfg : wcfg) (now b : Z) (l : list entry) : option Z * list entry * list Z :=
+Fixpoint get_scan (cfg : wpcfg) (now b : Z) (l : list entry) : option Z * list entry * list Z :=
   match l with
   | [] => (None, [], [])
   | e :: t =>
@@ -50,7 +50,7 @@ Fixpoint get_scan (cfg : wcfg) (now b : Z) (l : list entry) : option Z * list en
       else let '(r, rest, cl) := get_scan cfg now b t in (r, e :: rest, cl)
   end.
 
-Definition wp_step (cfg : wcfg) (s : wpool) (o : wop) : wpool * wout :=
+Definition wp_step (cfg : wpcfg) (s : wpool) (o : wop) : wpool * wout :=
   match o with
   | WPut b c =>
       let pools := if memZ b (pw_pools s) then pw_pools s else pw_pools s ++ [b] in
@@ -79,7 +79,7 @@ Definition wp_step (cfg : wcfg) (s : wpool) (o : wop) : wpool * wout :=
       (s, if memZ b (pw_pools s) then OStats (count_backend b (pw_idle s)) (active_of b s) else OStats 0 0)
   end.
 
-Fixpoint wp_run (cfg : wcfg) (s : wpool) (ops : list wop) : wpool * list wout :=
+Fixpoint wp_run (cfg : wpcfg) (s : wpool) (ops : list wop) : wpool * list wout :=
   match ops with
   | [] => (s, [])
   | o :: t => let '(s1, out) := wp_step cfg s o in let '(s2, outs) := wp_run cfg s1 t in (s2, out :: outs)
